@@ -3,7 +3,7 @@
    under the shape invariant mac_ok -- which holds initially and is kept by every operation -- none of these is reached by ANY
    received byte string, and that transmitting panics only in the two deliberate panic!s of prepare_buffer (application misuse). *)
 From Coq Require Import NArith ZArith List Bool.
-From LoraV Require Import Base.Bytes Model.Frame Model.MacCmd Gen.CmdTables Gen.RegionTables Model.Region Model.Mac Proofs.NoPanicProofs.
+From LoraV Require Import Base.Bytes Model.Frame Model.MacCmd Gen.CmdTables Gen.RegionTables Model.Region Model.Mac Model.AsyncDev Proofs.NoPanicProofs Proofs.AsyncNoPanic.
 Import ListNotations.
 Local Open Scope nat_scope.
 
@@ -45,6 +45,15 @@ Section C04.
 
   Theorem C04_join_request_never_panics : forall m c draws, mac_ok m -> (forall k b, length (mac_fn k b) = 16) -> join_otaa mac_fn m c draws <> Panic.
   Proof. exact (join_never_panics mac_fn). Qed.
+
+  (* the asynchronous front-end (Model/AsyncDev.v): in an established session, whatever the radio delivers during Device::send -- any
+     byte strings in RX1, RX2 or the Class C reception between the windows, timeouts, radio errors at any call, pending receptions --
+     send does not panic, except in prepare_buffer's deliberate panic!s (application misuse); the RX-window lead time is assumed not
+     longer than the transmission took (the scripted radio reports 100 ms) *)
+  Theorem C04_async_send_never_panics_on_radio_input : forall d e data fport confirmed draws d' e' s,
+    adev_send enc mac_fn d e data fport confirmed draws = (d', e', APanic) -> mac_ok (ad_mac d) -> (ad_lead d <= 100)%N -> m_state (ad_mac d) = Joined s ->
+    prepare_buffer enc mac_fn s (m_cfg (ad_mac d)) (rg_id (m_region (ad_mac d))) data fport confirmed = Panic.
+  Proof. exact (adev_send_panics_only_in_prepare_buffer enc mac_fn enc_len). Qed.
 End C04.
 
 (* channel selection: never a panic, the invariant is kept, for every random stream *)
